@@ -234,10 +234,7 @@ class Harness:
             elif c == "state":
                 out = a.get_app_state().name
             elif c == "setter":
-                if self.kind == "sim":
-                    a.set_param(1)
-                else:
-                    a.add_additional_options([])
+                self._all_setters()
             elif c == "get_alignment":
                 out = self._check_alignment(a.get_alignment())
             elif c == "get_order":
@@ -266,6 +263,40 @@ class Harness:
                 # biotite.application.TimeoutError; the property names no class
                 return "TimeoutError", ""
             return "Rejected", f"{type(e).__name__}"
+
+    def _all_setters(self):
+        """Every option setter of the wrapper class (all are documented as CREATED-only). They
+        must agree: all accepted, or all refused with AppStateError."""
+        from biotite.application.application import AppStateError
+
+        a = self.app
+        if self.kind == "sim":
+            calls = [lambda: a.set_param(1)]
+        else:
+            calls = [lambda: a.add_additional_options([]), lambda: a.set_exec_dir(self.exec_dir)]
+            if self.kind == "clustalo":
+                from biotite.sequence.phylo import Tree
+
+                n = len(self.inputs)
+                nwk = "0"
+                for i in range(1, n):
+                    nwk = f"({nwk},{i})"
+                calls.append(lambda: a.set_guide_tree(Tree.from_newick(nwk + ";")))
+            elif self.kind == "muscle3":
+                calls.append(lambda: a.set_gap_penalty(-3.0))
+                calls.append(lambda: a.set_gap_penalty((-5.0, -1.0)))
+            elif self.kind == "muscle5":
+                calls += [lambda: a.set_iterations(1, 1), lambda: a.set_thread_number(1), lambda: a.use_super5()]
+        refused = 0
+        for f in calls:
+            try:
+                f()
+            except AppStateError:
+                refused += 1
+        if refused == len(calls):
+            raise AppStateError("all setters refused")
+        if refused:
+            raise RuntimeError(f"{refused} of {len(calls)} setters refused, the others accepted")
 
     def _check_alignment(self, aln):
         if self.kind == "sim":
